@@ -879,8 +879,8 @@ func c19DecisionTable(p *Prog, r *Report) {
 		}
 		return a + " == " + b
 	}
-	const reqOS, envOS = "plugin.Plugin.Requirements(param0).OS", "param1.OS"
-	const reqNet, envNet = "plugin.Plugin.Requirements(param0).Network", "param1.Network"
+	const reqOS, envOS = "plugin.Requirements(param0).OS", "param1.OS"
+	const reqNet, envNet = "plugin.Requirements(param0).Network", "param1.Network"
 	names := map[string]string{
 		eq(cval("OSUnix"), reqOS):                          "reqUnix",
 		eq(cval("OSAny"), reqOS):                           "reqAnyOS",
@@ -891,9 +891,9 @@ func c19DecisionTable(p *Prog, r *Report) {
 		eq(reqNet, envNet):                                 "sameNet",
 		eq(cval("NetworkOffline"), envNet):                 "envOffline", // only selects the message
 		eq(cval("NetworkOnline"), envNet):                  "envOnline",
-		"plugin.Plugin.Requirements(param0).DirectFS":      "reqFS",
+		"plugin.Requirements(param0).DirectFS":      "reqFS",
 		"param1.DirectFS":                                  "envFS",
-		"plugin.Plugin.Requirements(param0).RunningSystem": "reqRun",
+		"plugin.Requirements(param0).RunningSystem": "reqRun",
 		"param1.RunningSystem":                             "envRun",
 	}
 	var vars []string
